@@ -219,6 +219,7 @@ def run_check(prop, tier, seed):
     budget = dict(cfg[tier])
     level = LEVELS.get(prop, cfg.get("level", {}).get(prop, "exploration"))
     engines = ["rc", "rp"] + (["fz"] if tier == "thorough" and "fz" in cfg["engines"] and budget.get("fz_secs") else [])
+    engines += ["en"] if "en" in cfg["engines"] else []
     targets = vharness.targets_for(harness, engines)
     try:
         vbuild.build_targets(list(targets.values()) + vharness.extra_targets(harness))
